@@ -541,6 +541,44 @@ func cmdCheck(prop string, args []string) {
 	total := newAgg()
 	perScen := map[string]*agg{}
 	var vios, crashes []*payload
+	// regression tapes: the minimal reproducers of findings that were fixed are replayed
+	// first; one that reproduces again is reported like any other violation
+	regs, _ := filepath.Glob(filepath.Join(verifDir, "regress", prop+"-*.json"))
+	sort.Strings(regs)
+	nreg := 0
+	for _, f := range regs {
+		b, err := os.ReadFile(f)
+		if err != nil {
+			continue
+		}
+		var p payload
+		if json.Unmarshal(b, &p) != nil || p.Violation == nil {
+			continue
+		}
+		want := p.Violation.Signature
+		if i := strings.Index(want, "/panic/"); i >= 0 {
+			want = want[i+1:]
+		}
+		sigs, last, crash := replayOnce(&p, 1, false)
+		nreg++
+		if len(sigs) > 0 && sigs[0] == want {
+			q := p
+			if last != nil {
+				q = *last
+				q.Violation = p.Violation
+			}
+			q.BaseSeed = p.BaseSeed
+			if crash != "" {
+				crashes = append(crashes, &q)
+			} else {
+				vios = append(vios, &q)
+			}
+			fmt.Printf("vcheck: regression tape %s reproduces again\n", f)
+		}
+	}
+	if nreg > 0 {
+		fmt.Printf("vcheck: %d regression tape(s) of fixed findings replayed\n", nreg)
+	}
 	var stalls []string
 	var infra []string
 	for _, sn := range spec.Scenarios {
